@@ -343,6 +343,15 @@ func (sp *Specs) loadFile(path string, commentOnly bool) error {
 				body = strings.TrimSpace(gs[1])
 			} else if fs[0] == "return" {
 				callee = "$return"
+				k = -1
+			} else if strings.HasPrefix(fs[0], "return#") {
+				// at return#K assert ...: the K-th return site in source order ("last": the final one)
+				callee = "$return"
+				if fs[0] == "return#last" {
+					k = -2
+				} else if k, err = strconv.Atoi(fs[0][7:]); err != nil {
+					return fail(err)
+				}
 			} else {
 				return fail(fmt.Errorf("bad at clause"))
 			}
